@@ -148,5 +148,34 @@ theorem position_gets_its_share (m tt t : Dec) (hm : 0 ≤ m) (htt : 0 < tt) (ht
 /-- non-vacuity: a part of 10 tokens over 4 staked tokens, position of 1 token: 2.5 → pays 2 -/
 example : truncateInt (mul (quo (10 * one) 4) 1) = 2 := by decide
 
+
+/-- every successful user operation SETTLES THE VALIDATOR FIRST, whatever the validator's status: where the module account has
+    a native delegation to it, a successful claim of a started asset consumes exactly one distribution response — the one for
+    this validator — i.e. everything x/distribution held for it was withdrawn and indexed (seeded change C13-g, an early
+    return for validators outside the active set, is the negation of this) -/
+theorem a_claim_settles_the_validator (del : Acct) (v : ValId) (dn : Denom) (w w' : World)
+    (h : step (.claim del v (some dn)) w = (.ok (), w')) (a : Asset) (hga : getAsset w dn = some a)
+    (hst : rewardsStarted a w.time = true) (hd : ModDelegates w v) :
+    ∃ cs, w.oracle = (v, cs) :: w'.oracle := msgClaim_settles del v dn w w' h a hga hst hd
+
+/-- not retroactive, at the root: a successful deposit withdraws and indexes what was pending for the validator BEFORE the new
+    shares are issued — for an existing position (through its claim) and for a new one (directly) -/
+theorem a_deposit_settles_the_validator_first (del : Acct) (v : ValId) (dn : Denom) (amt : Int) (w w' : World)
+    (h : step (.delegate del v dn amt) w = (.ok (), w')) (a : Asset) (hga : getAsset w dn = some a)
+    (hst : rewardsStarted a w.time = true) (hd : ModDelegates w v) :
+    ∃ cs, w.oracle = (v, cs) :: w'.oracle := msgDelegate_settles del v dn amt w w' h a hga hst hd
+
+theorem a_withdrawal_settles_the_validator_first (del : Acct) (val : AVal) (dn : Denom) (amt : Int) (w w' : World)
+    (h : undelegate del val dn amt w = (.ok (), w')) (a : Asset) (hga : getAsset w dn = some a)
+    (hst : rewardsStarted a w.time = true) (hd : ModDelegates w val.id) :
+    ∃ cs, w.oracle = (val.id, cs) :: w'.oracle := undelegate_settles del val dn amt w w' h a hga hst hd
+
+/-- a redelegation settles the source and then the destination, and consumes nothing else -/
+theorem a_redelegation_settles_both_validators_first (del : Acct) (src dst : AVal) (dn : Denom) (amt : Int) (w w' : World)
+    (h : redelegate del src dst dn amt w = (.ok (), w')) (a : Asset) (hga : getAsset w dn = some a)
+    (hst : rewardsStarted a w.time = true) (hds : ModDelegates w src.id) (hdd : ModDelegates w dst.id) :
+    ∃ cs1 cs2, w.oracle = (src.id, cs1) :: (dst.id, cs2) :: w'.oracle :=
+  redelegate_settles del src dst dn amt w w' h a hga hst hds hdd
+
 end C13
 end Alliance
